@@ -21,6 +21,9 @@ ASSUMPTIONS = [
     "number of rounds for explicit sample_size/sample_count is taken as ceil(count/threads) (group `loop` proves the loop); "
     "the barrier protocol itself is group `round`'s subject",
     "ZST values have no identity: their events are numbered by per-thread ordinals, so for ZSTs the check is on counts and order",
+    "the barrier waits made by Drop for SampleBarrier while a thread unwinds (hook H5, events with a = 3) are part of the compared "
+    "logs: the model's cut program ends with exactly the waits of the sample not yet reached (GuardWait); that they make the other "
+    "threads terminate is C08's subject",
 ]
 TRUSTED = [
     "harness/hx-sample instrumented types and closures (identifiers, per-thread ordinals, in-call flag)",
